@@ -1,14 +1,17 @@
-"""Other spellings of the 64-bit integral types.
+"""Other spellings of the integral types.
 
-The wrapper table instantiates every template that takes an integral type with the eight fixed-width types. On LP64 `long long` and
-`unsigned long long` are *distinct* types of the same width as int64_t / uint64_t (`long`, `unsigned long`), so code that keys on a type
-name instead of its properties can treat them differently.  For each family the wrapper spelled with `long long` / `unsigned long long`
-must be the same program as the int64_t / uint64_t wrapper (summary equivalence on the full parameter boxes); a spelling the library
+The wrapper table instantiates every template that takes an integral type with the eight fixed-width types. On x86-64 / LP64
+`long long`, `unsigned long long`, `char`, `wchar_t`, `char16_t` and `char32_t` are *distinct* integral types with the width and
+signedness of int64_t, uint64_t, int8_t, int32_t, uint16_t, uint32_t, so code that keys on a type name instead of its properties can
+treat them differently.  For each family the wrapper spelled with such a type must be the same program as its fixed-width twin (summary equivalence on the full parameter boxes); a spelling the library
 does not compile for is recorded as "not defined" (the properties quantify over the inputs a function is defined on)."""
 from . import lib
 from .lib import E
 
-SPELL = (("ll", "long long", "i64"), ("ull", "unsigned long long", "u64"))
+# (suffix, spelling, fixed-width twin on x86-64 / LP64)
+SPELL = (("ll", "long long", "i64"), ("ull", "unsigned long long", "u64"),
+         ("c", "char", "i8"), ("wc", "wchar_t", "i32"), ("c16", "char16_t", "u16"), ("c32", "char32_t", "u32"))
+TWIN = {"i64": "int64_t", "u64": "uint64_t", "i8": "int8_t", "i32": "int32_t", "u16": "uint16_t", "u32": "uint32_t"}
 A, B = "as_fixed(a)", "as_fixed(b)"
 
 # family -> list of (stem, params with C for the integral carrier, ret ('fx' or C), body with {T}, base wrapper name with {t})
@@ -63,8 +66,7 @@ def check(V, cfg, family, site, boxes=None):
         bx = boxes.get(name) if boxes else None
         ra = ctx.run(name, bx)
         rb = ctx.run(base, bx)
-        lib.check_equiv(V, ra, rb, "%s with the operand spelled %s == the same with %s" % (base[2:], T, "int64_t" if T == "long long" else "uint64_t"),
-                        site=site)
+        lib.check_equiv(V, ra, rb, "%s with the operand spelled %s == the same with its fixed-width twin" % (base[2:], T), site=site)
         done += 1
     info = {"compared": done, "not_defined_for_this_spelling": undefined}
     V.cover.setdefault("spellings", {}).setdefault(cfg, {})[family] = info
